@@ -26,6 +26,7 @@ type NodeOpts struct {
 	CacheBlocks    int
 	MaxFileSize    uint64
 	ClientRecovery bool // recover the way client/main.go does (do_the_blocks) instead of ParseTillBlock
+	LibraryTail    bool // the genesis selects the rule set NewChainExt configures by itself: let NewChainExt re-apply the blocks (DoNotRescan=false)
 	NetPath        bool // PreCheckBlock/AcceptHeader ... PostCheckBlock/CommitBlock instead of CheckBlock/AcceptBlock
 	Callbacks      utxo.CallbackFunctions
 	BlockMined     func(*btc.Block)
@@ -78,18 +79,22 @@ func Boot(dir string, o NodeOpts) *Node {
 	if dir[len(dir)-1] != '/' {
 		dir += "/"
 	}
+	libTail := o.LibraryTail && !o.ClientRecovery
 	ch := chain.NewChainExt(dir, btc.NewUint256(o.Genesis[:]), false,
-		&chain.NewChanOpts{DoNotRescan: true, UTXOCallbacks: o.Callbacks, BlockMinedCB: o.BlockMined, BlockUndoneCB: o.BlockUndone},
+		&chain.NewChanOpts{DoNotRescan: !libTail, UTXOCallbacks: o.Callbacks, BlockMinedCB: o.BlockMined, BlockUndoneCB: o.BlockUndone},
 		&chain.BlockDBOpts{MaxCachedBlocks: o.CacheBlocks, MaxDataFileSize: o.MaxFileSize, CompressOnDisk: o.CompressBlocks})
 	n := &Node{Ch: ch, Dir: dir, Opts: o}
 	applyConsensus(ch, o.P)
+	if libTail {
+		return n // NewChainExt has done the recovery itself
+	}
 	// blocks on disk beyond the snapshot: re-apply them (tail of NewChainExt / client start-up)
 	end, _ := ch.BlockTreeRoot.FindFarthestNode()
 	if end.Height > ch.LastBlock().Height {
 		if o.ClientRecovery {
 			n.doTheBlocks(end)
 		} else {
-			ch.ParseTillBlock(end)
+			ch.MoveToBlock(end) // as the tail of NewChainExt does (after fix 8: MoveToBlock, not ParseTillBlock)
 		}
 	}
 	return n
